@@ -89,6 +89,7 @@ void run_case(ByteSource& s, CaseInfo& ci) {
   S.set_mask(mask, perm);
   S.Set_GSL_step(STEPPERS[stepper]); S.Set_AdaptiveStep(adaptive);
   S.Set_rel_error(1e-10); S.Set_abs_error(lambda == 1.0 ? 1e-10 : 1e-12 * lambda); S.Set_h(1e-4); S.Set_h_max(0.05);
+  if (!adaptive) { S.Set_rel_error(1e-7); S.Set_abs_error(1e-7); }  // GSL rejects a fixed step whose error estimate exceeds the tolerances; accuracy comes from the step count
   if (lambda != 1.0) ci.label(lambda < 1 ? "state-scale-1e-6" : "state-scale-1e6");
   unsigned nsteps = fixed_steps(stepper, dur);
   if (!adaptive) S.Set_NumSteps(nsteps);
